@@ -221,7 +221,8 @@ impl GenCfg {
         };
         GenCfg {
             max_depth: rng.range(0, 4) as u32,
-            max_fan: rng.range(1, 5),
+            // now and then wide tuples / structs (derive handles any arity; 16 names are available)
+            max_fan: if rng.chance(1, 12) { rng.range(9, 14) } else { rng.range(1, 5) },
             budget,
             kinds,
         }
